@@ -215,6 +215,17 @@ class CoreTask:
         return repo, ctx, st, vm, validator, Interp(ctx)
 
     def finish(self, res, ctx, obls):
+        # vacuity guard: the assumptions shared by every obligation (the task's preconditions) must be satisfiable
+        pcs = [ob.pc for ob in obls if ob.pc]
+        if len(pcs) >= 1:
+            n = 0
+            while all(len(p) > n for p in pcs) and all(p[n].eq(pcs[0][n]) for p in pcs):
+                n += 1
+            if n:
+                cover = smt.check_sat(pcs[0][:n], timeout_ms=1000, use_cvc5=False)
+                res["cover"] = cover.status
+                if cover.status == "unsat":
+                    raise RuntimeError("vacuous precondition in %s" % self.name)
         for ob in obls:
             ob.check(self.timeout_ms)
             rec = {"name": ob.name if ob.name.startswith(self.name) else self.name + "::" + ob.name,
